@@ -32,6 +32,10 @@ func (s *dbSys) fn(id int) func() {
 	return func() {
 		s.fires = append(s.fires, id, int(vtime.Elapsed()/time.Millisecond))
 		s.total++
+		if id >= 100 && id < 1000 && s.call != nil {
+			// a new call arrives while this one is still running
+			s.call(s.fn(id + 1000))
+		}
 	}
 }
 
@@ -75,7 +79,7 @@ func dbExplorer(depth int) *tt.Explorer {
 			if path[0].N == "delay" {
 				return append(ticks, op("stop"))
 			}
-			return append(ticks, op("call", len(path)+1), op("cancel"))
+			return append(ticks, op("call", len(path)+1), op("call", 100+len(path)), op("cancel"))
 		},
 		SplitDepth: 2,
 	}
